@@ -139,6 +139,9 @@ def coq_project_files():
     return ["theories/" + f for f in fs] + ["gen/" + f for f in gs]
 
 
+PER_FILE_TIMEOUT = int(os.environ.get("VERIF_COQ_FILE_TIMEOUT", "900"))
+
+
 def coq_build(targets=None, timeout=3000):
     """coq_makefile + make -k; returns (ok, log).  targets: list like ['theories/Properties_C09.vo']"""
     files = coq_project_files()
@@ -150,7 +153,8 @@ def coq_build(targets=None, timeout=3000):
     rc, out, err = sh(["coq_makefile", "-f", "_CoqProject", "-o", "Makefile"], cwd=COQ)
     if rc != 0:
         return False, out + err
-    cmd = ["make", "-k", "-j%d" % NCPU] + (targets or [])
+    # per-file time limit: a proof script that hangs must not stall the whole build (make -k goes on)
+    cmd = ["make", "-k", "-j%d" % NCPU, "COQC=timeout %d coqc" % PER_FILE_TIMEOUT] + (targets or [])
     rc, out, err = sh(cmd, cwd=COQ, timeout=timeout)
     return rc == 0, out + err
 
@@ -273,14 +277,18 @@ def cxx_object(src, tag, flags, compiler=None):
     if deps is not None and os.path.exists(obj) and os.path.exists(hf):
         if open(hf).read() == _hash_files(deps, key):
             return obj, True, ""
-    cmd = [compiler] + flags + repo_includes() + ["-I" + os.path.join(ROOT, "harness"), "-MMD", "-MF", dep, "-c", src, "-o", obj]
+    # compile into private temporaries and rename: two checks running at the same time may build the same TU
+    sfx = ".tmp%d" % os.getpid()
+    cmd = [compiler] + flags + repo_includes() + ["-I" + os.path.join(ROOT, "harness"), "-MMD", "-MF", dep + sfx, "-MT", obj, "-c", src, "-o", obj + sfx]
     rc, out, err = sh(cmd, timeout=1500)
     if rc != 0:
-        if os.path.exists(obj):
-            os.remove(obj)
+        for f in (obj + sfx, dep + sfx):
+            if os.path.exists(f):
+                os.remove(f)
         return None, False, err[-6000:]
-    deps = _parse_dep(dep) or []
-    open(hf, "w").write(_hash_files(deps, key))
+    deps = _parse_dep(dep + sfx) or []
+    open(hf + sfx, "w").write(_hash_files(deps, key))
+    os.replace(obj + sfx, obj); os.replace(dep + sfx, dep); os.replace(hf + sfx, hf)
     return obj, False, ""
 
 
@@ -301,10 +309,14 @@ def cxx_build(name, sources, flags=None, libs=None, tag="std", compiler=None):
         objs.append(o)
     if os.path.exists(exe) and all(c for _, c, _ in rs):
         return exe, ""
-    cmd = [compiler or CXX, "-fopenmp"] + [f for f in flags if f.startswith("-fsanitize") or f.startswith("-fno-sanitize")] + objs + ["-o", exe] + libs
+    tmpexe = exe + ".tmp%d" % os.getpid()
+    cmd = [compiler or CXX, "-fopenmp"] + [f for f in flags if f.startswith("-fsanitize") or f.startswith("-fno-sanitize")] + objs + ["-o", tmpexe] + libs
     rc, out, err = sh(cmd, timeout=900)
     if rc != 0:
+        if os.path.exists(tmpexe):
+            os.remove(tmpexe)
         return None, "link error:\n" + err[-6000:]
+    os.replace(tmpexe, exe)
     return exe, ""
 
 
